@@ -39,6 +39,10 @@ var (
 	zzvBuildA = ref.Build{"example.com/p1", "v1.0.0", "go1.21.0", "linux", "amd64"}
 	zzvBuildB = ref.Build{"example.com/p1", "v1.1.0", "go1.21.0", "linux", "amd64"} // same program, other version
 	zzvBuildC = ref.Build{"example.com/p2", "v1.0.0", "go1.21.0", "linux", "arm64"}
+	// builds differing from A in exactly one of GOARCH, GOOS, Go version
+	zzvBuildD = ref.Build{"example.com/p1", "v1.0.0", "go1.21.0", "linux", "arm64"}
+	zzvBuildE = ref.Build{"example.com/p1", "v1.0.0", "go1.21.0", "darwin", "amd64"}
+	zzvBuildF = ref.Build{"example.com/p1", "v1.0.0", "go1.22.0", "linux", "amd64"}
 )
 
 type zzvPlaced struct {
@@ -56,8 +60,15 @@ func (u *zzvU) place(fs zzvFileSpec, i int, s0 time.Time) zzvPlaced {
 	if fs.build == "B" {
 		b = zzvBuildB
 	}
-	if fs.build == "C" {
+	switch fs.build {
+	case "C":
 		b = zzvBuildC
+	case "D":
+		b = zzvBuildD
+	case "E":
+		b = zzvBuildE
+	case "F":
+		b = zzvBuildF
 	}
 	w1 := zzvDate("2024-01-07")
 	begin := w1.Add(-4 * zzvDay)
@@ -214,7 +225,9 @@ func zzvC07Sequential(res *vrep.Result, base string, p vrep.Params) {
 		}
 	}
 	sets = append(sets, []zzvFileSpec{{"A", "plain"}, {"A", "plain"}, {"B", "plain"}}, []zzvFileSpec{{"A", "plain"}, {"A", "empty"}, {"C", "plain"}},
-		[]zzvFileSpec{{"A", "plain"}, {"B", "plain"}, {"C", "plain"}}, []zzvFileSpec{{"A", "empty"}, {"A", "empty"}, {"B", "empty"}})
+		[]zzvFileSpec{{"A", "plain"}, {"B", "plain"}, {"C", "plain"}}, []zzvFileSpec{{"A", "empty"}, {"A", "empty"}, {"B", "empty"}},
+		// program builds that differ in a single field stay apart
+		[]zzvFileSpec{{"A", "plain"}, {"D", "plain"}}, []zzvFileSpec{{"E", "plain"}, {"A", "plain"}}, []zzvFileSpec{{"A", "plain"}, {"F", "plain"}}, []zzvFileSpec{{"D", "plain"}, {"E", "plain"}, {"F", "plain"}})
 	if p.Thorough() {
 		for _, a := range specs[:6] {
 			for _, b := range specs {
